@@ -980,7 +980,9 @@ def c16_files(seed, tier):
             cmodes = [("file-input", "out.cba"), ("stdin-input", "out.cba"), ("force", "out.cba"),
                       ("empty-file-input", "out.cba"), ("empty-stdin", names[(i + 1) % len(names)]),
                       ("file-input", names[(2 * i + 1) % len(names)]), ("force", names[(2 * i + 2) % len(names)]),
-                      ("empty-file-input", names[(2 * i + 3) % len(names)])]
+                      ("empty-file-input", names[(2 * i + 3) % len(names)]),
+                      # what a failed earlier run leaves behind: a regular file at the temp path (it is reused and removed)
+                      ("stale-temp-file-input", names[(3 * i) % len(names)])]
             if i == 0:
                 # KNOWN FINDING: the temp file is opened by name with create+truncate - something already at that
                 # path is reused (here: a dangling symbolic link, whose target then stays behind as a second new file)
@@ -1002,6 +1004,11 @@ def c16_files(seed, tier):
                 outp = os.path.join(sub, oname)
                 if mode == "force":
                     open(outp, "wb").write(b"old")
+                if mode.startswith("stale-temp"):
+                    b_ = os.path.basename(oname)
+                    k_ = b_.rfind(".")
+                    open(os.path.join(os.path.dirname(outp), (b_[:k_] if k_ > 0 else b_) + "..tmp"), "wb").write(rng.randbytes(len(src) + 3000))
+                    R.stat("compress_over_a_stale_temp_file")
                 listing = lambda: set(os.path.relpath(os.path.join(dp, f), sub) for dp, _, fs_ in os.walk(sub) for f in fs_)
                 before = listing()
                 log = os.path.join(W.dir, "strace_c%d_%d.log" % (i, j))
@@ -1997,9 +2004,36 @@ def c11_conformance(seed, tier):
                     with open(os.path.splitext(outp)[0] + "..tmp", "wb") as f:
                         f.write(rng.randbytes(len(src) + 5000))
                     R.stat("with_stale_temp_file")
-                cls, arch, se, apath = compress_cli(W, src, cfg_args, hash_len, compression, level, rng.choice([1, 3, 16]), list(md.items()),
-                                                    via_stdin=rng.random() < 0.3, out=outp,
-                                                    extra=["--force-create"] if i % 6 == 4 else None)
+                # metadata as a command line gives it: --metadata-value pairs (a key may come twice) and
+                # --metadata-file pairs (a key may also be among the values): values first, then files, the last one wins
+                md_strings = list(md.items())
+                md_files = []
+                if i % 2 == 1:
+                    pool = ["", "a", "key0", "ключ", "k k", "b"]
+                    md_strings = [(rng.choice(pool), rng.choice(["", "v", "w", "binÿ", "x" * 300])) for _ in range(rng.randrange(1, 5))]
+                    md_files = [(rng.choice(pool), rng.choice([b"", b"file", bytes(range(200, 256)), b"\x00\xff" * 40])) for _ in range(rng.randrange(0, 3))]
+                    md = {}
+                    for k_, v_ in md_strings:
+                        md[k_] = v_
+                    R.stat("metadata_given_with_repeated_keys_or_files")
+                extra = ["--force-create"] if i % 6 == 4 else []
+                for k_, b_ in md_files:
+                    extra += ["--metadata-file", k_, W.write(b_, ".meta")]
+                cls, arch, se, apath = compress_cli(W, src, cfg_args, hash_len, compression, level, rng.choice([1, 3, 16]), md_strings,
+                                                    via_stdin=rng.random() < 0.3, out=outp, extra=extra or None)
+                md_bytes = {k_: v_.encode() for k_, v_ in md.items()}
+                for k_, b_ in md_files:
+                    md_bytes[k_] = b_
+                if cls == "ok" and arch is not None and (md_files or len(md_strings) != len(md)):
+                    # the model's map (Bita.Options.metadataOf) against what the archive records
+                    try:
+                        rec = pyfmt.parse_archive(arch)["dictionary"]["metadata"]
+                        tok = lambda b: hx(b) if b else "e"
+                        R.case("meta-map %s %s" % (",".join("%s:%s" % (tok(k_.encode()), tok(v_.encode())) for k_, v_ in md_strings) or "-",
+                                                   ",".join("%s:%s" % (tok(k_.encode()), tok(b_)) for k_, b_ in md_files) or "-"),
+                               "map=" + (",".join("%s:%s" % (tok(k_.encode()), tok(rec[k_])) for k_ in sorted(rec, key=lambda x: x.encode())) or "-"))
+                    except ValueError:
+                        pass
                 if os.path.exists(os.path.splitext(outp)[0] + "..tmp"):
                     R.fail("temp-file-left-behind", "cli-compress (stale temp scenario) src=%s" % digest(src))
             else:
@@ -2011,8 +2045,9 @@ def c11_conformance(seed, tier):
             if cls != "ok" or arch is None:
                 R.fail("compress-%s" % cls, req)
                 continue
+            expected_md = md_bytes if writer == "cli" else {k: v.encode() for k, v in md.items()}
             probs = pyfmt.conformance_problems(arch, src, cfg_tok, hash_len, 3 if compression == "brotli" else 0, level or 0,
-                                               {k: v.encode() for k, v in md.items()}, version)
+                                               expected_md, version)
             if probs:
                 R.fail("archive-does-not-conform", req + " :: " + "; ".join(probs)[:300])
             # the model's reading of the same bytes (header + dictionary) agrees with the implementation's `info`
@@ -2024,9 +2059,9 @@ def c11_conformance(seed, tier):
             text = (so3 + se3).decode(errors="replace")
             if c3 != "ok" or ("Chunk hash length: %d bytes" % hash_len) not in text:
                 R.fail("info-does-not-report-settings", req)
-            for k, v in md.items():
+            for k, v in expected_md.items():
                 c4, rc4, so4, se4 = run_bita(["info", "--metadata-key", k, apath])
-                if c4 != "ok" or so4 != v.encode():
+                if c4 != "ok" or so4 != v:
                     R.fail("metadata-not-reported-verbatim", req + " key=%r" % k)
                     break
     finally:
